@@ -1976,7 +1976,7 @@ func (g *wgen) helper(i int) *wfunc {
 	f.body = g.stmts(g.budget, g.o.maxDepth-1)
 	if f.ret != nil {
 		ret := &wstmt{k: "return", e: g.expr(f.ret, 3)}
-		if g.c.chance(0.12) {
+		if !g.o.flatRet && g.c.chance(0.12) {
 			// the function's last statement is a loop that is only left by `return` (valid: the loop never falls through):
 			// `var rlK = 0u; loop { if rlK >= N { return e; } rlK++; }`
 			ctr := g.fresh("rl")
@@ -2277,4 +2277,34 @@ func addPreLetLoop(c *ctx, m *wmodule) {
 		body = append(body, blk)
 	}
 	m.entry.body = body
+}
+
+
+// hasNestedReturn: does some helper function contain a `return` inside a loop or a switch (at any depth)?  The decidable
+// shape of the recorded inliner defect C13-inline-nested-return.
+func hasNestedReturn(m *wmodule) bool {
+	var walk func(l []*wstmt, nested bool) bool
+	walk = func(l []*wstmt, nested bool) bool {
+		for _, st := range l {
+			if st.k == "return" && nested {
+				return true
+			}
+			inner := nested || st.k == "loop" || st.k == "for" || st.k == "while" || st.k == "switch"
+			if walk(st.body, inner) || walk(st.els, inner) {
+				return true
+			}
+			for _, cs := range st.cases {
+				if walk(cs.body, true) {
+					return true
+				}
+			}
+		}
+		return false
+	}
+	for _, f := range m.funcs {
+		if walk(f.body, false) {
+			return true
+		}
+	}
+	return false
 }
